@@ -453,6 +453,11 @@ def finish(chk, classify, write_evidence=True):
     for kid, fs in known_hits.items():
         lines.append("KNOWN-FINDING: property=%s %s: %s (%d failing inputs this run, e.g. %s)" % (
             chk.cid, kid, known[kid]["what"], len(fs), json.dumps(fs[0]["input"])[:200]))
+    for kid, kf in known.items():
+        if kid not in known_hits and write_evidence:
+            # every listed finding is named on every run; this one's failing inputs were not among the inputs sampled this time
+            lines.append("KNOWN-FINDING: property=%s %s: %s (listed in known_findings.json with its witness; no input of this run fell in its class)" % (
+                chk.cid, kid, kf["what"]))
     broken_obl = [(n, d) for n, ok, d in chk.obligations if not ok]
     broken_corr = {n: c for n, c in chk.corr.items() if c["disagreements"]}
     if unknown:
